@@ -229,7 +229,19 @@ class Flow:
                     out.add('key:' + repr(k.value))
             return out
         if isinstance(e, ast.BinOp):
-            return A(e.left) | A(e.right)
+            out = A(e.left) | A(e.right)
+            # arithmetic with a small integer constant is kept as a marker
+            # (x * 2 -> mul2(), x // 2 -> floordiv2(), x % 2 -> mod2())
+            for c in (e.left, e.right):
+                if isinstance(c, ast.Constant) and isinstance(
+                        c.value, int) and not isinstance(c.value, bool):
+                    nm = {ast.Mult: 'mul', ast.FloorDiv: 'floordiv',
+                          ast.Mod: 'mod', ast.Add: 'add', ast.Sub: 'sub',
+                          ast.RShift: 'rshift', ast.BitAnd: 'bitand'}.get(
+                              type(e.op))
+                    if nm and nm not in ('add', 'sub'):
+                        out.add('{}{}()'.format(nm, c.value))
+            return out
         if isinstance(e, ast.BoolOp):
             for v in e.values:
                 out |= A(v)
@@ -450,7 +462,7 @@ class Flow:
                 continue
             base = r[6:] if r.startswith('param:') else r
             for sf in sufs:
-                out.add(base + sf)
+                out.add(base + sf if sf else r)
         if not out:
             out.add(unparse(e))
         return out
